@@ -192,7 +192,9 @@ impl Check for C20 {
         if gen == "fdcomp" || (gen == "fixed" && index >= 8) {
             out.count("fd_answers_in_compounds", real.answers.iter().filter(|a| has_comp(&a.tuple)).count() as u64);
         }
-        if let Cmp::Different(why) = compare_multisets(&tagged, &real_tw.answers, &uni) {
+        if cut_at_cap(real.ended, real.answers.len(), real_tw.ended, real_tw.answers.len()) {
+            out.count("comparisons_skipped_answer_cap", 1);
+        } else if let Cmp::Different(why) = compare_multisets(&tagged, &real_tw.answers, &uni) {
             out.violate(
                 "M-meta",
                 "compound program and its tagged-list twin disagree",
@@ -204,7 +206,9 @@ impl Check for C20 {
             Ok(rans) => {
                 out.count("ref_compared", 1);
                 let uni2 = universe(&prog, &[]);
-                if let Cmp::Different(why) = compare_multisets(&real.answers, &rans, &uni2) {
+                if cut_at_cap(real.ended, real.answers.len(), true, rans.len()) {
+                    out.count("comparisons_skipped_answer_cap", 1);
+                } else if let Cmp::Different(why) = compare_multisets(&real.answers, &rans, &uni2) {
                     out.violate("M-ref", "answers differ from the reference semantics", format!("{} | real {} | reference {}", why, show_answers(&real.answers), show_answers(&rans)), format!("{}", prog));
                 }
             }
